@@ -18,5 +18,6 @@ extern spec_state verif_T0, verif_T1, verif_T2, verif_T3, verif_T4, verif_T5, ve
 #include "ghost_permute.h"
 #include "ghost_aead.h"
 #include "ghost_hex.h"
+#include "ghost_apps.h"
 
 #endif
